@@ -11,6 +11,7 @@ import Ops.IO
 import Ops.SeqEnc
 import Ops.EncBuf
 import Ops.C0506
+import Ops.KdTree
 /- Line-protocol driver of the executable model: one op per line in, one line out. -/
 open Draco
 
@@ -27,7 +28,8 @@ def allOps : List (String × (List String → String)) := List.flatten [
   Ops.ioOps,
   Ops.seqEncOps,
   Ops.encBufOps,
-  Ops.c0506Ops]
+  Ops.c0506Ops,
+  Ops.kdTreeOps]
 
 def dispatch (line : String) : String :=
   match (line.trimAscii.toString.splitOn " ").filter (· ≠ "") with
